@@ -41,7 +41,9 @@ S = Suite(
     bound="alphabet of 6 solves (16x12 and 24x20 sources, footprint/dispersion, "
           "single/double, modes (16,16)/(32,24)/(24,20)); quick: all sequences of length "
           "<= 2 over threads {1,4} x reset {no,yes}; thorough: length <= 3 over {1,4} and "
-          "length <= 2 over {1,2,4,8}; fresh-interpreter runs at every thread setting",
+          "length <= 2 over {1,2,4,8}; fresh-interpreter runs at every thread setting; 12 "
+          "one-argument variants (halo, domain, wind, z, background, measurement point, level, "
+          "modes) of a dispersion and a footprint solve, run before and after their base solve",
     rule="array_equal for equal (solve, threads) inside one process; 1e-12 of the field "
          "maximum against the fresh interpreter and across thread settings; 1e-5 of the "
          "field maximum single vs double",
@@ -71,6 +73,28 @@ _SOLVES = {
     "A-fp-d": ("A", True, "double", (16, 16), [2, 6], (55.0, 30.0), None, 0.0),
     "B-disp-s": ("B", False, "single", (24, 20), "nd:3,8", (20.0, 65.0), 40.0, 1.5),
 }
+# one-argument variants of two alphabet members: the same source shape, everything else equal
+# except ONE argument (halo, domain, wind profile, vertical grid, background, measurement
+# point, level, mode count).  A solve must not depend on whether such a near-twin ran before
+# it (state keyed by an incomplete set of arguments shows only in these pairs).
+_SHAPES["Adom"] = dict(_SHAPES["A"], domain=(160.0, 120.0))
+_SHAPES["Awind"] = dict(_SHAPES["A"], wind=(2.0, -2.0))
+_SHAPES["Az"] = dict(_SHAPES["A"], zm=6.0)
+_SOLVES.update({
+    "A-disp-d/halo": ("A", False, "double", (16, 16), 6, (0.0, 0.0), 20.0, 0.0),
+    "A-disp-d/domain": ("Adom", False, "double", (16, 16), 6, (0.0, 0.0), None, 0.0),
+    "A-disp-d/wind": ("Awind", False, "double", (16, 16), 6, (0.0, 0.0), None, 0.0),
+    "A-disp-d/z": ("Az", False, "double", (16, 16), 6, (0.0, 0.0), None, 0.0),
+    "A-disp-d/bg": ("A", False, "double", (16, 16), 6, (0.0, 0.0), None, 2.0),
+    "A-disp-d/meas": ("A", False, "double", (16, 16), 6, (40.0, 22.5), None, 0.0),
+    "A-disp-d/levels": ("A", False, "double", (16, 16), 4, (0.0, 0.0), None, 0.0),
+    "A-disp-d/modes": ("A", False, "double", (12, 12), 6, (0.0, 0.0), None, 0.0),
+    "A-fp-s/halo": ("A", True, "single", (16, 16), [2, 6], (55.0, 30.0), 20.0, 0.0),
+    "A-fp-s/domain": ("Adom", True, "single", (16, 16), [2, 6], (55.0, 30.0), None, 0.0),
+    "A-fp-s/wind": ("Awind", True, "single", (16, 16), [2, 6], (55.0, 30.0), None, 0.0),
+    "A-fp-s/meas": ("A", True, "single", (16, 16), [2, 6], (40.0, 22.5), None, 0.0),
+})
+VARIANTS = {b: [n for n in _SOLVES if n.startswith(b + "/")] for b in ("A-disp-d", "A-fp-s")}
 ALPHABET = ["A-disp-d", "A-disp-s", "A-fp-s", "B-fp-d", "B-fp-s", "B-disp-d"]
 _TWIN = {"A-disp-s": "A-disp-d", "A-fp-s": "A-fp-d", "B-fp-s": "B-fp-d",
          "B-disp-s": "B-disp-d"}
@@ -323,12 +347,23 @@ def generate(tier, rng):
     threads = _available([1, 2, 4, 8] if thorough else [1, 4])
     prefetch([(s, 1) for s in _SOLVES] + [(s, t) for s in ALPHABET for t in threads if t != 1])
     for s in _SOLVES:
+        if "/" in s:
+            continue
         for t in threads:
             yield "args-not-mutated", dict(solve=s, threads=t)
     for s in ALPHABET:
         for t in threads:
             if t != 1:
                 yield "fresh-threads", dict(solve=s, threads=t)
+    # near-twin pairs, both orders; the later solve on 1 thread and on several
+    for base, variants in VARIANTS.items():
+        for v in variants:
+            for t in threads if thorough else threads[-1:] + [1]:
+                for reset in ((False, True) if thorough else (False,)):
+                    yield "history", dict(seq=[[v, 1, False], [base, t, reset]])
+                    yield "history", dict(seq=[[base, 1, False], [v, t, reset]])
+            if thorough:
+                yield "history", dict(seq=[[v, 1, False], [base, 1, False], [v, 1, False]])
     if thorough:
         seen = set()
         for seq in itertools.chain(_sequences(_available([1, 4]), 3), _sequences(threads, 2)):
